@@ -154,11 +154,16 @@ func PanicSig(val interface{}, stack []byte) (fn string, msg string) {
 	return fn, msg
 }
 
+// LastPanicStack is the stack of the most recent panic caught by Guard.
+var LastPanicStack string
+
 // Guard runs f and converts an escaping panic into (fn, msg, true).
 func Guard(f func()) (fn, msg string, panicked bool) {
 	defer func() {
 		if r := recover(); r != nil {
-			fn, msg = PanicSig(r, debug.Stack())
+			st := debug.Stack()
+			LastPanicStack = string(st)
+			fn, msg = PanicSig(r, st)
 			panicked = true
 		}
 	}()
